@@ -49,10 +49,13 @@ DEFAULT_TIMEOUT = 240
 PROGRAMS = {
     "C02": ["clone_read_drop_2t", "clone_read_drop_3t", "clone_in_thread_then_drop", "thin_offset_union_2t",
             "thin_2t", "offset_2t", "union_2t", "borrow_clone_arc_2t", "handoff_chain_4t", "convert_under_sharing", "nodrop_payload_2t"],
-    "C03": ["poll_get_mut_write", "poll_is_unique_then_write", "thin_with_arc_mut_get_mut", "declining_try_unwrap_vs_gates"],
+    "C03": ["poll_get_mut_write", "poll_is_unique_then_write", "thin_with_arc_mut_get_mut", "declining_try_unwrap_vs_gates",
+            "poll_get_mut_write@release", "deprecated_write_vs_reader@release"],
+    "C12": ["union_shapes"],
+    "C15": ["deprecated_write_vs_reader", "deprecated_write_vs_reader@release"],
     "C08": ["make_mut_vs_readers", "offset_make_mut_vs_readers", "offset_make_mut_overaligned"],
     "C09": ["racing_try_unwrap_2t", "racing_try_unwrap_3t", "try_unwrap_vs_drop", "unwrap_or_clone_vs_drop",
-            "try_unique_vs_drop", "declining_try_unwrap_vs_gates"],
+            "try_unique_vs_drop", "declining_try_unwrap_vs_gates", "try_unique_vs_drop@release", "try_unwrap_vs_drop@release"],
 }
 # programs of another property that exercise the same gate / hand-over and are worth running too
 ALSO = {
@@ -221,7 +224,10 @@ def miri_flags(seed, extra=""):
 
 def command(ldir, tdir, program, seed, extra_flags="", args=()):
     """(argv, env additions, exact shell command to reproduce)."""
-    argv = ["cargo", TOOLCHAIN, "miri", "run", "--offline", "--target-dir", tdir, "--bin", program]
+    # `name@release`: the same program interpreted as a release build (debug_assert!s compiled out: some of the crate's
+    # debug assertions re-load the count with Acquire and mask a missing ordering in the dev profile)
+    rel = program.endswith("@release")
+    argv = ["cargo", TOOLCHAIN, "miri", "run", "--offline", "--target-dir", tdir, "--bin", program.split("@")[0]] + (["--release"] if rel else [])
     if args:
         argv += ["--"] + list(args)
     flags = miri_flags(seed, extra_flags)
@@ -304,7 +310,7 @@ def prepare(ctx, programs):
     if not ok:
         return None, None, {p: "Miri sysroot could not be built (tooling failure):\n" + trim_report(out) for p in programs}
     for p in programs:
-        if not os.path.exists(os.path.join(LITMUS_SRC, "src", "bin", p + ".rs")):
+        if not os.path.exists(os.path.join(LITMUS_SRC, "src", "bin", p.split("@")[0] + ".rs")):
             raise KeyError("unknown litmus program: " + p)
     ldir, tdir = litmus_dir(ctx.repo)
     broken = {}
@@ -373,6 +379,21 @@ def run_suite(ctx, programs, seeds, timeout_s=DEFAULT_TIMEOUT, stop_first=False)
     if hasattr(ctx, "oblige"):
         ctx.oblige("miri:litmus-programs-build-and-start", not te, "tool errors: %s" % te)
     return out
+
+
+def simple_pass(ctx, prop, programs, nseeds, what):
+    """Run litmus programs under Miri as one more pass of a check whose main body is elsewhere; a Miri diagnosis or a
+    failed program check is a concrete failing input (program + seed).  Returns True if all runs were clean."""
+    res = run_suite(ctx, programs, seeds(ctx, nseeds))
+    bad = failing(res)
+    ctx.oblige("miri:%s" % what, not bad, "%d failing runs" % len(bad))
+    cov = coverage(res)
+    ctx.coverage["miri_" + what.replace("-", "_")] = {k: cov[k] for k in cov if k != "samples"}
+    ctx.coverage["evaluations"] = ctx.coverage.get("evaluations", 0) + len(res)
+    if bad and not any(v["found_input"] for v in ctx.violations):
+        r = bad[0]
+        ctx.violation("miri", "\n".join(["%s: Miri program `%s` with -Zmiri-seed=%d reports:" % (prop, r["program"], r["seed"]), "  replay: " + r["cmd"], r["report"]]), True)
+    return not bad
 
 
 def run_native(ctx, programs, rounds=20000, timeout_s=60):
